@@ -180,6 +180,9 @@ Proof.
   destruct (want (cc_run cc) k Env) as [| | | | [|x d] | |]; reflexivity.
 Qed.
 
+Lemma sudo_kwargs_eq c k : sudo_run_kwargs c k = spec_sudo_kwargs c k.
+Proof. reflexivity. Qed.
+
 (** * the model's calls are the composed ones, its exceptions the expected ones *)
 Lemma exec_judge cc : forall s fs tail,
   judge_stmt cc fs s (snd (fst (exec cc s (state_of fs))) ++ tail)
@@ -188,9 +191,11 @@ Proof.
   unfold exec.
   induction s as [c k f|c u k f|x|b body IH] using stmt_ind'; intros fs tail.
   - cbn [exec_with judge_stmt fst snd app]. unfold do_run, run_raises.
-    rewrite prefix_composed, call_ok_model, run_raises_spec. reflexivity.
+    rewrite prefix_composed, run_meets_spec, run_raises_spec. reflexivity.
   - cbn [exec_with judge_stmt fst snd app]. unfold do_sudo, run_raises.
-    rewrite prefix_composed, sudo_string, call_ok_model, run_raises_spec. reflexivity.
+    rewrite prefix_composed, sudo_string.
+    change (sudo_run_kwargs (cc_run cc) k) with (spec_sudo_kwargs (cc_run cc) k).
+    rewrite run_meets_spec, run_raises_spec. reflexivity.
   - reflexivity.
   - rewrite exec_block, judge_block, push_state.
     assert (L : forall l fs0 tail0,
@@ -265,28 +270,29 @@ Qed.
 
 Theorem command_composition cc fs cmd k :
   rejected (cc_run cc) k = None -> truthy (want (cc_run cc) k Dry) = false ->
-  snd (fst (run_program cc (nest fs [SRun cmd k false])))
+  map o_started (snd (fst (run_program cc (nest fs [SRun cmd k false]))))
   = [Some (composed fs cmd, want (cc_run cc) k Shell,
            generate_env (want (cc_run cc) k Env) (want (cc_run cc) k ReplaceEnv) (cc_parent cc))].
 Proof.
   intros S D. unfold run_program. change c0 with (state_of []).
   rewrite nest_calls. unfold exec_list. cbn [app exec_list_with exec_with fst snd]. unfold do_run.
   rewrite prefix_composed.
-  destruct (run_raises _ false); cbn [fst snd]; rewrite ?app_nil_r;
+  destruct (run_raises _ false); cbn [fst snd]; rewrite ?app_nil_r; cbn [map];
     rewrite started_value by assumption; reflexivity.
 Qed.
 
 Theorem sudo_wraps_prefixed cc fs cmd u k :
   rejected (cc_run cc) k = None -> truthy (want (cc_run cc) k Dry) = false ->
-  snd (fst (run_program cc (nest fs [SSudo cmd u k false])))
+  map o_started (snd (fst (run_program cc (nest fs [SSudo cmd u k false]))))
   = [Some (sudo_wrapped cc u k (composed fs cmd), want (cc_run cc) k Shell,
            generate_env (want (cc_run cc) k Env) (want (cc_run cc) k ReplaceEnv) (cc_parent cc))].
 Proof.
   intros S D. unfold run_program. change c0 with (state_of []).
   rewrite nest_calls. unfold exec_list. cbn [app exec_list_with exec_with fst snd]. unfold do_sudo.
   rewrite prefix_composed, sudo_string.
-  destruct (run_raises _ false); cbn [fst snd]; rewrite ?app_nil_r;
-    rewrite started_value by assumption; reflexivity.
+  destruct (run_raises _ false); cbn [fst snd]; rewrite ?app_nil_r; cbn [map];
+    rewrite (started_value (cc_run cc) (cc_parent cc) _ (sudo_run_kwargs (cc_run cc) k) S D);
+    reflexivity.
 Qed.
 
 (** * Historical: before fix c2a3b37 [_sudo] consulted the env KEYWORD only (F-C15) *)
@@ -322,8 +328,8 @@ Theorem sudo_watchers_none_before_fix_refuted :
     sudo_refused_before_fix k = true /\             (* TypeError, nothing started ... *)
     expected_raise (cc_run cc) k false = None /\    (* ... where nothing has to be raised *)
     (* and the code as it is now starts the wrapped command *)
-    run_program cc [SSudo "whoami" None k false]
-    = (c0, [Some ("sudo -S -p 'P:' whoami"%string, OStr "/bin/bash", [])], None).
+    map o_started (snd (fst (run_program cc [SSudo "whoami" None k false])))
+    = [Some ("sudo -S -p 'P:' whoami"%string, OStr "/bin/bash", [])].
 Proof.
   exists (mkCC (mkCfg (fun _ => None) ONone) "P:" ONone []),
          (mkKw (fun o => match o with Watchers => Some ONone | _ => None end) None []).
